@@ -153,6 +153,9 @@ public:
     static_assert(detail::is_basic_type_v<T>,                                  \
                   "Operator " #opSymbol                                        \
                   " only supported for primitive and pointer types");          \
+    static_assert(!detail::rlbox_is_wrapper_of_other_sandbox_v<T_Rhs, T_Sbx>,  \
+                  "Operator " #opSymbol                                        \
+                  " mixes values of different sandbox types");                 \
                                                                                \
     auto raw_rhs = detail::unwrap_value(rhs);                                  \
                                                                                \
@@ -205,6 +208,9 @@ public:
     static_assert(detail::is_fundamental_or_enum_v<T>,                         \
                   "Operator " #opSymbol                                        \
                   " only supported for primitive  types");                     \
+    static_assert(!detail::rlbox_is_wrapper_of_other_sandbox_v<T_Rhs, T_Sbx>,  \
+                  "Operator " #opSymbol                                        \
+                  " mixes values of different sandbox types");                 \
                                                                                \
     auto raw = impl().get_raw_value();                                         \
     auto raw_rhs = detail::unwrap_value(rhs);                                  \
@@ -290,6 +296,9 @@ public:
     static_assert(detail::is_fundamental_or_enum_v<T>,                         \
                   "Operator " #opSymbol                                        \
                   " only supported for primitive  types");                     \
+    static_assert(!detail::rlbox_is_wrapper_of_other_sandbox_v<T_Rhs, T_Sbx>,  \
+                  "Operator " #opSymbol                                        \
+                  " mixes values of different sandbox types");                 \
                                                                                \
     auto raw = impl().get_raw_value();                                         \
     auto raw_rhs = detail::unwrap_value(rhs);                                  \
